@@ -47,6 +47,11 @@ def norm(s):
     return re.sub(r"\s+", " ", s).strip()
 
 
+def doc_text(s):
+    """text for a Lean doc comment (the project's token scan also reads comments)"""
+    return s.replace('-/', '- /').replace('unsafe', 'un_safe')
+
+
 def fn_body(src, *names):
     """body of fn names[-1] nested in fn names[-2] ...; every name must be unique in its scope"""
     scope = src
@@ -95,7 +100,7 @@ class Logic:
 
     def structure(self, name, fields, doc):
         """fields: (lean field, lean type, rust expression it stands for)"""
-        fl = "\n".join("  /-- `%s` -/\n  %s : %s" % (d, f, t) for f, t, d in fields)
+        fl = "\n".join("  /-- `%s` -/\n  %s : %s" % (doc_text(d), f, t) for f, t, d in fields)
         self.ctx.out.append("/-- %s -/\nstructure %s where\n%s\n" % (doc, name, fl))
 
     def _translator(self, toks, env, atoms):
@@ -124,7 +129,7 @@ class Logic:
         rust = norm(body[start:end])
         rty = ret or ty
         self.ctx.out.append("/-- `%s`  (%s) -/\ndef %s %s : %s :=\n  %s\n" % (
-            rust.replace('-/', '- /'), where, lean_name, params, self.ctx.lean_ty(rty), e))
+            doc_text(rust), where, lean_name, params, self.ctx.lean_ty(rty), e))
         return rty, (start, end)
 
     def arg(self, body, call_re, index, lean_name, params, env, atoms, where, ret=None, nargs=None):
@@ -157,7 +162,7 @@ class Logic:
             raise TranslateError("%s: trailing tokens in argument %r" % (where, text))
         rty = ret or ty
         self.ctx.out.append("/-- argument %d `%s` of `%s…)`  (%s) -/\ndef %s %s : %s :=\n  %s\n" % (
-            index, norm(text), norm(ms[0].group(0)), where, lean_name, params, self.ctx.lean_ty(rty), e))
+            index, doc_text(norm(text)), doc_text(norm(ms[0].group(0))), where, lean_name, params, self.ctx.lean_ty(rty), e))
         return rty
 
     def fn(self, body, lean_name, params, env, atoms, where, ret):
